@@ -282,6 +282,64 @@ def run_b2craft(ctx, pt):
     ctx.eq('C11/blake2%s/crafted-rotation-input' % v, ctx.attempt(lambda: mk2(v)(M)), ('ok', h2(v)(M).digest()))
 
 
+def pts_bcraft(tier):
+    return [(n, col, site, tgt) for n in SIZES for col in range(4) for site in range(6) for tgt in range(4)]
+
+
+def run_bcraft(ctx, pt):
+    """BLAKE-n one-block messages in which a message word is solved so that, in a first-round column G call, the result of
+    one of the two additions or the input of one of the four rotations is 0 / all-ones / 1 / top bit"""
+    from crysp.blake import Blake
+    n, col, site, tgt = pt
+    big = n > 256
+    w = 64 if big else 32
+    mask = (1 << w) - 1
+    R = (32, 25, 16, 11) if big else (16, 12, 8, 7)
+    c = RB.C64 if big else RB.C32
+    T = [0, mask, 1, 1 << (w - 1)][tgt]
+    wb = w // 8
+    nbytes = 9 * wb                  # words 0..8 are message bytes; the rest is padding and length
+    L = 8 * nbytes
+    h = list({224: RB.IV224, 256: RB.IV256, 384: RB.IV384, 512: RB.IV512}[n])
+    m = [int.from_bytes(expander(wb, 70 + i), 'big') for i in range(9)]
+    v = h + [c[0], c[1], c[2], c[3], L ^ c[4], L ^ c[5], c[6], c[7]]     # salt 0, counter = L (fits the low word)
+    rol = lambda a, k: ((a << k) | (a >> (w - k))) & mask
+    ror = lambda a, k: ((a >> k) | (a << (w - k))) & mask
+    a, b, cc, d = v[col], v[col + 4], v[col + 8], v[col + 12]
+    ix, iy = 2 * col, 2 * col + 1     # sigma[0] is the identity: first add uses m[ix]^c[iy], second m[iy]^c[ix]
+    if site == 0:                     # result of the first addition
+        m[ix] = ((T - a - b) & mask) ^ c[iy]
+    elif site == 1:                   # input of the first rotation d ^ a'
+        m[ix] = (((T ^ d) - a - b) & mask) ^ c[iy]
+    elif site == 2:                   # input of the second rotation b ^ (c + d')
+        d1 = ((T ^ b) - cc) & mask
+        a1 = d ^ rol(d1, R[0])
+        m[ix] = ((a1 - a - b) & mask) ^ c[iy]
+    else:
+        a1 = (a + b + (m[ix] ^ c[iy])) & mask
+        d1 = ror(d ^ a1, R[0])
+        c1 = (cc + d1) & mask
+        b1 = ror(b ^ c1, R[1])
+        if site == 3:                 # result of the second addition
+            m[iy] = ((T - a1 - b1) & mask) ^ c[ix]
+        elif site == 4:               # input of the third rotation d' ^ a''
+            m[iy] = (((T ^ d1) - a1 - b1) & mask) ^ c[ix]
+        else:                         # input of the fourth rotation b' ^ (c' + d'')
+            d2 = ((T ^ b1) - c1) & mask
+            a2 = d1 ^ rol(d2, R[2])
+            m[iy] = ((a2 - a1 - b1) & mask) ^ c[ix]
+    # non-vacuity: recompute forwards
+    a1 = (a + b + (m[ix] ^ c[iy])) & mask
+    d1 = ror(d ^ a1, R[0]); c1 = (cc + d1) & mask; b1 = ror(b ^ c1, R[1])
+    a2 = (a1 + b1 + (m[iy] ^ c[ix])) & mask
+    d2 = ror(d1 ^ a2, R[2]); c2 = (c1 + d2) & mask
+    if (a1, d ^ a1, b ^ c1, a2, d1 ^ a2, b1 ^ c2)[site] != T:
+        raise InternalError('crafted BLAKE message does not reach its target %r' % (pt,))
+    ctx.extra['crafted_targets_hit'] += 1
+    M = b''.join(x.to_bytes(wb, 'big') for x in m)
+    ctx.eq('C11/blake%d/crafted-addition-or-rotation-input' % n, ctx.attempt(lambda: Blake(n)(M)), ('ok', RB.blake(n, M)))
+
+
 def pts_b2preset(tier):
     pts = []
     for v in ('s', 'b'):
@@ -367,6 +425,10 @@ def pts_b2par(tier):
             if tier == 'quick' and sum(1 for a, b in zip(t, (1, 1, 0, 0, 0, 0)) if a != b) > 2:
                 continue
             pts.append((v, 'tree') + t)
+        # parameter blocks of real tree nodes: leaves, an inner node, the root (node depth = depth-1, offset 0), unlimited fanout
+        for t in ((2, 2, 4096, 0, 0, top), (2, 2, 4096, 1, 0, top), (2, 2, 4096, 0, 1, top), (4, 3, 1024, 3, 1, 16), (4, 3, 1024, 0, 2, 16),
+                  (0, 255, 0, 0, 254, top), (2, 2, 0, 0, 1, 1), (255, 2, 1, 0, 1, top)):
+            pts.append((v, 'tree') + t)
     return pts
 
 
@@ -435,6 +497,8 @@ def subchecks():
         Sub('blake-preset-counters', pts_preset, run_preset, engine='H',
             bound='live object with preset chaining value and bit counter around 2^w, 2^(w+1), 2^(2w)-2B, then update(M, padding=True) with |M| in 6 classes; reference compression gets the explicit counter (0 for a padding-only block)'),
         Sub('blake-salted-streaming', pts_stream_salt, run_stream_salt, engine='H', bound='initstate(salt) with a non-palindromic salt, 2..4 block-aligned updates, closing update, 4 digest sizes'),
+        Sub('blake-crafted-words', pts_bcraft, run_bcraft, engine='P',
+            bound='BLAKE-224/256/384/512 one-block messages in which a message word is solved so that each of the 2 addition results and 4 rotation inputs of each first-round column G call is 0 / all-ones / 1 / top bit (384 messages, each verified to hit its target) vs the reference'),
         Sub('blake2-crafted-words', pts_b2craft, run_b2craft, engine='P',
             bound='BLAKE2s/2b one-block messages in which a message word is solved so that the input of each of the 4 rotations of each of the 4 first-round column G calls is 0 / all-ones / 1 / top bit (128 messages) vs hashlib'),
         Sub('blake2-preset-counters', pts_b2preset, run_b2preset, engine='H',
